@@ -435,3 +435,7 @@ def check(ctx: Ctx) -> None:
         if d.get("proxyclose") is not False:
             ob.violation(fm, fm.node, "makefile's proxyclose default is not False")
         ob.note("writing after close raises OSError: Channel.send refuses closed channels (C03.c)")
+
+    # "writing after close raises OSError": whoever has observed the close (waitclose() returned) finds the channel closed
+    from .C03 import check_close_published_last
+    check_close_published_last(ctx, "C19.f")
